@@ -45,7 +45,7 @@ Definition table : list ds_entry := [
      (TPrint [x25; x73] [(EOut F_getcwd [(EOp "out" []); (EInt (4097)%Z)] 0)])
      (TRet (EInt (-1)%Z)
            EBuf0)) |};
-  {| de_name := "datetime"; de_symbol := "snoopy_datasource_datetime"; de_calls := ["time"; "strftime"; "localtime_r"]; de_tree :=
+  {| de_name := "datetime"; de_symbol := "snoopy_datasource_datetime"; de_calls := ["time"; "localtime_r"; "strftime"]; de_tree :=
     (TIf (EOp "==" [(ECall F_time [(EOp "out" [])]); (EInt (-1)%Z)])
      (TPrint [x28; x65; x72; x72; x6f; x72; x20; x40; x20; x74; x69; x6d; x65; x28; x29; x3a; x20; x25; x64; x29] [(EErrno F_time [(EOp "out" [])])])
      (TIf (EOp "==" [(ECall F_localtime_r [(EOut F_time [(EOp "out" [])] 0); (EOp "out" [])]); (EInt (0)%Z)])
